@@ -51,10 +51,47 @@ def status_sites(fi):
     return out
 
 
+def _attr_aliases(node):
+    """locals of the enclosing function bound exactly once to a plain attribute read of another local
+    (`code = result.status`, `ok = result.success`): {alias: attribute expression}"""
+    fn = node
+    while fn is not None and not isinstance(fn, (ast.FunctionDef, ast.AsyncFunctionDef)):
+        fn = getattr(fn, "_parent", None)
+    if fn is None:
+        return {}
+    cached = getattr(fn, "_attr_aliases", None)
+    if cached is not None:
+        return cached
+    out = {}
+    la = local_assignments(fn)
+    for nm, vals in la.items():
+        vs = [v for v in vals if isinstance(v, ast.AST)]
+        if len(vals) == 1 and len(vs) == 1 and isinstance(vs[0], ast.Attribute) and isinstance(vs[0].value, ast.Name) and len(la.get(vs[0].value.id, [])) <= 1:
+            out[nm] = vs[0]
+    fn._attr_aliases = out
+    return out
+
+
+def _unalias(test, aliases):
+    if not aliases or not any(isinstance(x, ast.Name) and x.id in aliases for x in ast.walk(test)):
+        return test
+    import copy as _copy
+
+    class R(ast.NodeTransformer):
+        def visit_Name(self, n):
+            if isinstance(n.ctx, ast.Load) and n.id in aliases:
+                return ast.copy_location(_copy.deepcopy(aliases[n.id]), n)
+            return n
+
+    return R().visit(_copy.deepcopy(test))
+
+
 def path_condition(node):
     gs = dominating_guards(node) + preceding_exit_guards(node)
+    al_ = _attr_aliases(node)
     parts = []
     for test, pol in gs:
+        test = _unalias(test, al_)
         f = formula(test)
         parts.append(f if pol else Not(f))
     return And(*parts) if parts else TRUE
@@ -64,7 +101,7 @@ def own_test(node):
     """Source of the innermost guard the node sits under (stable key for the site)."""
     gs = dominating_guards(node)
     for test, pol in gs:
-        return ("" if pol else "else-of ") + src(test)
+        return ("" if pol else "else-of ") + src(_unalias(test, _attr_aliases(node)))
     return "unconditional"
 
 
@@ -298,6 +335,9 @@ def _check_minimize(prog, rep, fi, call):
                 anchor = anchor._parent
             seen_types[typ] = (tests[0], anchor)
         for typ in sorted(rec_types):
+            if typ not in seen_types and any(isinstance(x_, ast.Constant) and x_.value == typ for x_ in ast.walk(lp)):
+                rep.undecided(f"{construct}: records of type {typ!r} are mentioned in the feasibility loop, but not in a test this rule can walk (verdict not decided)")
+                continue
             if typ not in seen_types:
                 rep.ob("R06.2", construct, False, f"records of type {typ!r} are built for the solver but never tested by the feasibility loop", loc=f"{fi.module.rel}:{lp.lineno}", detail=f"verdict:{typ}")
                 continue
